@@ -121,6 +121,8 @@ site('qbe.c', 'funcstore', 'assert', 'tp&PROPSCALAR', J('internal', 'aggregate s
 site('qbe.c', 'funcstore', 'error', "cannot store to 'const' object",
      T('expr', 'ci_ = 2', pre=PQ, cg=True), T('expr', '*cip_ = 2', pre=PQ, cg=True), T('expr', 'cs_.a = 2', pre=PQ, cg=True), T('expr', 'cip_[1] += 2', pre=PQ, cg=True),
      T('expr', 'cp_ = 0', pre=PQ, cg=True, anyty=True), T('expr', 'cs_.arr_[1] = 2', pre=PQ, cg=True), T('stmt', '{ const int l_ = 1; l_ = 2; }'),
+     T('stmt', '{ struct { const int a_ : 3; int b_ : 2; } l_; l_.a_ = 1; }', gcc='gcc 12 only warns (assignment of read-only location) for a const bit-field; 6.5.16p2 requires a modifiable lvalue', note='regression (fixed f490d06): the bit-field access node dropped the qualifiers'),
+     T('stmt', '{ const struct { int a_ : 3; } l_ = {1}; l_.a_ += 2; }'),
      T('expr', 'cs_ = sv_', pre=PQ, cg=True, anyty=True, finding='C10-const-aggregate-assign', skip=('*',)))
 site('qbe.c', 'funcstore', 'error', 'volatile store is not yet supported',
      T('expr', 'vi_ = 1', pre=PQ, cg=True, gcc='documented unsupported feature (volatile-qualified types); valid C'),
@@ -128,6 +130,7 @@ site('qbe.c', 'funcstore', 'error', 'volatile store is not yet supported',
      T('expr', 'vi_++', pre=PQ, cg=True, gcc='documented unsupported feature (volatile-qualified types); valid C',
        note='regression (fixed c0abecd): EXPRINCDEC stored with the qualifiers of the ++ node'),
      T('expr', '--vi_', pre=PQ, cg=True, gcc='documented unsupported feature (volatile-qualified types); valid C'),
+     T('stmt', '{ struct { volatile int a_ : 3; } l_; l_.a_ = 1; }', gcc='documented unsupported feature (volatile-qualified types); valid C'),
      T('expr', '*(volatile int *)ip_ = 1', pre=PQ, cg=True, gcc='documented unsupported feature (volatile-qualified types); valid C'))
 site('qbe.c', 'convert', 'error', 'long double is not yet supported',
      T('expr', 'h_v = (int)ld_', pre=PQ, cg=True, gcc='documented unsupported feature (long double); valid C'),
